@@ -11,13 +11,13 @@ RP = ['read()', 'readStr()', 'read(buffer,1,n)']
 
 
 def plan(tier):
-    unit = Unit('file', [H], repo_srcs=['src/File.cpp', 'src/Path.cpp', 'src/Exception.cpp'], extra_rt=['rt_fs.c'])
+    unit = Unit('file', [H], ['VF_STR_CAP=40'], repo_srcs=['src/File.cpp', 'src/Path.cpp', 'src/Exception.cpp'], extra_rt=['rt_fs.c'])
     maxb = 3 if tier == 'quick' else 6
     qs = []
 
     def add(cube, what, reach):
         name = 'f_' + '_'.join(str(c) for c in cube).replace('-', 'm')
-        qs.append(CubeQuery(name, unit, cube, unwind=20, timeout=600, expect_reach=[reach],
+        qs.append(CubeQuery(name, unit, cube, unwind=44, timeout=600, expect_reach=[reach],
                             desc=dict(what, symbolic='every written byte and every pre-existing byte')))
     for wm in range(4):
         for total in range(0, maxb + 1):
@@ -59,5 +59,10 @@ def run(tier, seed):
 
 
 def replay(path):
-    print('C17 counterexamples are model-level (POSIX model); replay runs the same harness against the real file system is not implemented')
-    return 2
+    ck = Check('C17', 'quick', 0)
+    ok, out = ck.native_replay(path)
+    print(out)
+    if ok:
+        print('VIOLATION property=C17 replay=%s' % path)
+        return 1
+    return 0
